@@ -147,17 +147,36 @@ class B64Rules:
                     rec_(x, par)
         rec_(f['body'], None)
         bad = []
+
+        def ctx_ok(node, depth=0):
+            cur = node
+            par = parents.get(cur['_id'])
+            while par is not None and par['k'] in ('ImplicitCastExpr', 'CStyleCastExpr'):
+                cur, par = par, parents.get(par['_id'])
+            if par is None or par['k'] == 'DeclStmt':
+                # initialiser of a local: the local's uses must all be allowed
+                for d in walk(f['body']):
+                    if d['k'] == 'DeclStmt':
+                        for x in d['decls']:
+                            ini = x.get('init')
+                            if ini is not None and any(y is cur or y.get('_id') == cur['_id'] for y in walk(ini)) and depth < 2:
+                                t = self.prog.type(x['t'])
+                                if t.get('k') not in ('int', 'bool'):
+                                    return False
+                                uses = [u for u in walk(f['body']) if u['k'] == 'DeclRefExpr' and u.get('d') == x['id']]
+                                return all(ctx_ok(u, depth + 1) for u in uses)
+                return False
+            if par['k'] == 'BinaryOperator' and par['op'] in ('==', '!='):
+                other = par['rhs'] if par['lhs'] is cur or par['lhs'].get('_id') == cur['_id'] else par['lhs']
+                return 'cv' in other or 'cv' in strip(other)
+            if par['k'] == 'CallExpr':
+                return True
+            if par['k'] == 'ArraySubscriptExpr' and strip(par['base']).get('glob'):
+                return True
+            return False
         for n in walk(f['body']):
             if n['k'] == 'ArraySubscriptExpr' and strip(n['base']).get('d') == p0:
-                cur = n
-                par = parents.get(cur['_id'])
-                while par is not None and par['k'] in ('ImplicitCastExpr', 'CStyleCastExpr') :
-                    cur, par = par, parents.get(par['_id'])
-                ok = par is not None and (
-                    (par['k'] == 'BinaryOperator' and par['op'] in ('==', '!=') and ('cv' in strip(par['lhs']) or 'cv' in strip(par['rhs']) or 'cv' in par['lhs'] or 'cv' in par['rhs']))
-                    or par['k'] == 'CallExpr'
-                    or (par['k'] == 'ArraySubscriptExpr' and strip(par['base']).get('glob')))
-                if not ok:
+                if not ctx_ok(n):
                     bad.append(nloc(n))
         return bad
 
